@@ -229,3 +229,14 @@ class C10Deal(Monitor):
 import monitors as _m  # noqa: E402
 
 _m.ALL['C10'] = C10Deal
+
+
+class C11Deal(C10Deal):
+    """the same clauses reported for C11: in a predefined variant the street definitions are the documented
+    table (compared exhaustively by C11's pre-check), so a hand not dealt by them is not dealt as the variant
+    prescribes"""
+    prop = 'C11'
+
+
+_m.ALL['C11deal'] = C11Deal
+
